@@ -10,6 +10,7 @@ mod peers;
 mod raw;
 mod rng;
 mod router;
+mod shutdown;
 mod size;
 mod smoke;
 mod streams;
@@ -70,6 +71,7 @@ fn main() -> anyhow::Result<()> {
         "C19" => tower::run_c19(&mut run)?,
         "C20" => tower::run_c20(&mut run)?,
         "C13" => dialing::run_c13(&mut run)?,
+        "C08" => shutdown::run_c08(&mut run)?,
         "C09" => views::run_c09(&mut run)?,
         "C01" => tls::run_c01(&mut run)?,
         "C03" => tls::run_c03(&mut run)?,
